@@ -359,7 +359,11 @@ class CounterToken(Token, FileSystemEventHandler):
                         "Not reading token file [%f <= %f]", timestamp, self.timestamp
                     )
 
-                total = int(self.infopath.read_text())
+                try:
+                    total = int(self.infopath.read_text())
+                except ValueError:
+                    # The file is being (re)written: another event will follow
+                    return
                 delta = total - self.total
                 self.total = total
                 self.available += delta
